@@ -270,10 +270,31 @@ fn selector_cases(acc: &mut Acc, g: &mut SplitMix, base: &SplitMix) {
     }
 }
 
+/// harness-side mutants of a generated pointer impl (UEC_SELFTEST=4,5): forwarding twice, and
+/// touching the generator before forwarding
+struct DoubleApply<M>(M);
+impl<M: Mutator<V>> Mutator<V> for DoubleApply<M> {
+    type Error = M::Error;
+    fn mutate<R: Rng + ?Sized>(&self, genome: V, rng: &mut R) -> Result<V, M::Error> {
+        let once = self.0.mutate(genome, rng)?;
+        self.0.mutate(once, rng)
+    }
+}
+struct ExtraDraw<M>(M);
+impl<M: Mutator<V>> Mutator<V> for ExtraDraw<M> {
+    type Error = M::Error;
+    fn mutate<R: Rng + ?Sized>(&self, genome: V, rng: &mut R) -> Result<V, M::Error> {
+        let _ = rng.next_u32();
+        self.0.mutate(genome, rng)
+    }
+}
+
 fn mutator_flavours<E: 'static>(acc: &mut Acc, mk: impl Fn() -> ProbeMut, term: &str, genome: &V, base: &SplitMix, sc: Script, concrete: &Out, conv: &str, canon: &dyn Fn(&E) -> (String, String))
 where ProbeErr: Into<E> {
     let mut outs: Vec<(&'static str, Out)> = Vec::new();
     each_flavour!(outs, mk, [DynMutator<V, E>], |p| mut_call(&p, genome, base, sc, canon));
+    if acc.selftest == 4 { let b: Box<dyn DynMutator<V, E>> = Box::new(mk()); outs.push(("mutant/double-application", mut_call(&DoubleApply(b), genome, base, sc, canon))); }
+    if acc.selftest == 5 { let b: Box<dyn DynMutator<V, E>> = Box::new(mk()); outs.push(("mutant/extra-draw", mut_call(&ExtraDraw(b), genome, base, sc, canon))); }
     judge(acc, "Mutator", term, genome, conv, sc, base, concrete, &mut outs, true);
 }
 
@@ -428,7 +449,7 @@ fn real_selector_oracle(acc: &mut Acc, g: &mut SplitMix, base: &SplitMix) {
 pub fn run(cfg: &Cfg) -> Report {
     let selftest: u8 = std::env::var("UEC_SELFTEST").ok().and_then(|s| s.parse().ok()).unwrap_or(0);
     let seed = cfg.seed;
-    let per_kind: u64 = if cfg.thorough { 600 } else { 14 };
+    let per_kind: u64 = if cfg.thorough { 4000 } else { 80 };
     let n = 6 * per_kind;
     let mut rep = run_sharded(&cfg.driver, cfg.threads, n, || Report::new("dyn", RULE), |d, r, i| {
         let mut g = SplitMix::derive(seed ^ 0xD17, i);
